@@ -21,7 +21,7 @@ META = dict(
           "symbolic coordinates the best-alignment disorder of the translated (symbolic shift) and of the scaled (factors 1/4 and 3) continuum equals the original's.",
     trusted="z3 (nlsat); MIP stub contract; gamma's invariance then follows from gamma = 1 - observed/expected being homogeneous of degree 0 (C05) - an argument, not a solver result; "
             "the large continua named in the quantifier (2x60, 3x15, 5x5) are reached only through this compositional argument",
-    bounds=dict(quick="pipeline: sizes (1,1),(2,1),(2,2),(1,1,1) with all annotator permutations; end-to-end real dissimilarities: translation on (1,1),(2,1), scaling on (1,1)",
+    bounds=dict(quick="(label bijections include a label renamed to '' and unlabelled units) pipeline: sizes (1,1),(2,1),(2,2),(1,1,1) with all annotator permutations; end-to-end real dissimilarities: translation on (1,1),(2,1), scaling on (1,1)",
                 thorough="+ (2,1,1),(3,1),(1,1,1,1) permutations; end-to-end scaling on (2,1); end-to-end real dissimilarities on (2,2),(1,1,1)"),
     outside="float32 rounding (translation by large offsets loses precision in float32: real arithmetic here); continua beyond the bound",
     stubs=["cvxpy/CBC/GLPK = contract stub", "numba.njit = identity", "np float arrays = object arrays of z3 reals"],
@@ -128,11 +128,12 @@ def harness(cfg, ns):
         de = ctx.fresh("de")
         ctx.solver.add(de.e > 0)
         rz = lambda m: dict(kind="labels", dissim=cfg["dissim"], de=common.frs(mval(m, de)))     # noqa: E731
+        ctx.notes["realize"] = rz
         obls = []
         if cfg["dissim"] == "absolute":
             D = ds.AbsoluteCategoricalDissimilarity(delta_empty=de)
-            ren = {"x": "q", "y": "a", "z": "m"}          # arbitrary bijection (not order preserving)
-            for l1, l2 in itertools.product("xyz", repeat=2):
+            ren = {"x": "q", "y": "", "z": "m", None: None}          # arbitrary bijection (not order preserving; '' is a label like any other, unlabelled stays unlabelled)
+            for l1, l2 in itertools.product(["x", "y", "z", None], repeat=2):
                 vals = []
                 for mp in (lambda v: v, lambda v: ren[v]):
                     c = co.Continuum()
@@ -145,9 +146,9 @@ def harness(cfg, ns):
                 obls.append(Obl("absolute: unchanged by any label bijection (d)", core.eq(vals[0][1], vals[1][1]), rz))
         else:
             p = [ctx.fresh(f"p{i}_") for i in range(3)]
-            ren = {"b": "bb", "d": "dz", "f": "x"}         # order-preserving renaming
+            ren = {"b": "", "d": "dz", "f": "x"}         # order-preserving renaming ('' sorts first)
             D1 = ds.OrdinalCategoricalDissimilarity(["d", "b", "f"], [p[1], p[0], p[2]], delta_empty=de)
-            D2 = ds.OrdinalCategoricalDissimilarity(["x", "dz", "bb"], [p[2], p[1], p[0]], delta_empty=de)
+            D2 = ds.OrdinalCategoricalDissimilarity(["x", "dz", ""], [p[2], p[1], p[0]], delta_empty=de)
             for l1, l2 in itertools.product("bdf", repeat=2):
                 vals = []
                 for D, mp in ((D1, lambda v: v), (D2, lambda v: ren[v])):
@@ -330,8 +331,8 @@ def replay(case):
             return float(D.d_mat(ua[0][0], ua[1][0])), float(D.d(us[0], us[1]))
         if case["dissim"] == "absolute":
             D = pa.AbsoluteCategoricalDissimilarity(delta_empty=de)
-            ren = {"x": "q", "y": "a", "z": "m"}
-            for l1, l2 in itertools.product("xyz", repeat=2):
+            ren = {"x": "q", "y": "", "z": "m", None: None}
+            for l1, l2 in itertools.product(["x", "y", "z", None], repeat=2):
                 a, b = both(D, l1, l2), both(D, ren[l1], ren[l2])
                 want = de * (l1 != l2)
                 for nm, v in (("d_mat", a[0]), ("d", a[1]), ("d_mat renamed", b[0]), ("d renamed", b[1])):
@@ -339,9 +340,9 @@ def replay(case):
                         bad.append(f"absolute ({l1},{l2}): {nm} = {v}, expected {want}")
         else:
             p_ = [0.0, 1.5, 4.0]
-            ren = {"b": "bb", "d": "dz", "f": "x"}
+            ren = {"b": "", "d": "dz", "f": "x"}
             D1 = pa.OrdinalCategoricalDissimilarity(["d", "b", "f"], [p_[1], p_[0], p_[2]], delta_empty=de)
-            D2 = pa.OrdinalCategoricalDissimilarity(["x", "dz", "bb"], [p_[2], p_[1], p_[0]], delta_empty=de)
+            D2 = pa.OrdinalCategoricalDissimilarity(["x", "dz", ""], [p_[2], p_[1], p_[0]], delta_empty=de)
             for l1, l2 in itertools.product("bdf", repeat=2):
                 a, b = both(D1, l1, l2), both(D2, ren[l1], ren[l2])
                 if not (close(a[0], b[0]) and close(a[1], b[1]) and close(a[0], a[1])):
